@@ -23,7 +23,11 @@
       queue     0x04 | unix seconds (8 bytes BE) | len,account | sha256(name) | sha256(value) -> {}
     Accounts, names and values are interned integers.  ASSUMED: SHA-256 is injective on the
     names and values that occur (so a record key is the triple (account, name, value) itself);
-    names are already normalised (lower case, trimmed); values are short decimal numerals, which
+    a name is the interned id of its NORMALISED form (lower case, every segment trimmed) and the
+    attribute messages additionally carry the SPELLING class [sp] of the name string in the
+    request (0 canonical; 1 spaces around the whole name; 2 letter case differs, possibly with
+    outer spaces; 3 spaces inside, next to a dot; 4 inside spaces and case) — see "Spelling"
+    below for which code path normalises and which uses the raw string; values are short decimal numerals, which
     are valid for the types JSON(2) String(3) Int(5) Float(6) Proto(7) Bytes(8) and invalid for
     UUID(1) Uri(4) and Unspecified(0) ([type_ok]); the value length limit is not reached; all
     times are whole seconds (keys hold [Unix()]); uint64 counters do not overflow; protobuf
@@ -126,6 +130,21 @@ Definition name_exists (s : state) (n : Z) : bool :=
   match s_owner s n with Some _ => true | None => false end.
 Definition gov : Z := 0.
 
+(** ** Spelling of the name in a request
+    SetAttribute and UpdateAttributeExpiration replace the name by nameKeeper.Normalize(name)
+    before anything else, so every spelling behaves like the canonical one.
+    UpdateAttribute normalises the name for the ownership check and for the new record, but
+    looks the existing record up under AddrAttributeKey(originalAttribute) with the RAW name;
+    GetNameKeyBytes lower-cases and trims only the WHOLE name, so a spelling with inside spaces
+    gives another key: nothing found.
+    DeleteAttribute uses the raw name throughout: ResolvesTo / NameExists go through the name
+    module's key, which trims every segment but is case sensitive (another case = "no such
+    name", the permission check is skipped); the scan prefix is GetNameKeyBytes(raw) (inside
+    spaces: another prefix); and a scanned record counts only if attr.Name == raw name, i.e.
+    only for the canonical spelling. *)
+Definition sp_case (sp : Z) : bool := (sp =? 2) || (sp =? 4).
+Definition sp_inner (sp : Z) : bool := (sp =? 3) || (sp =? 4).
+
 (** ** Keeper operations.  [None] = error. *)
 
 (* The tail of SetAttribute (also the second half of UpdateAttribute): store.Set(key, attr);
@@ -148,8 +167,9 @@ Definition del_rec (dq : bool) (s : state) (r : attr) : state :=
               (cnt_dec (s_cnt s) (a_name r) (a_acct r))
               (if dq then q_del (s_queue s) r else s_queue s).
 
-Definition update_attribute (s : state) (c a n ov oty nv nty : Z) : option state :=
+Definition update_attribute (s : state) (c a n ov oty nv nty sp : Z) : option state :=
   if type_ok oty && type_ok nty && s_acct s c && resolves s n c then
+    if sp_inner sp then None else   (* raw-name key: no such record *)
     match find_rec (a, n, ov) (s_recs s) with
     | Some cur =>
         if a_type cur =? oty then
@@ -180,10 +200,18 @@ Definition update_expiration (s : state) (c a n v : Z) (e : option Z) : option s
 Definition may_remove (s : state) (c n : Z) : bool :=
   s_acct s c && (resolves s n c || negb (name_exists s n)).
 
-Definition delete_attribute (s : state) (c a n : Z) (ov : option Z) : option state :=
-  if may_remove s c n then
+(* DeleteAttribute's gate evaluated on the raw name *)
+Definition may_remove_raw (s : state) (c n sp : Z) : bool :=
+  let resolves_raw := if sp_case sp then false else resolves s n c in
+  let exists_raw := if sp_case sp then false else name_exists s n in
+  s_acct s c && (resolves_raw || negb exists_raw).
+
+Definition delete_attribute (s : state) (c a n : Z) (ov : option Z) (sp : Z) : option state :=
+  if may_remove_raw s c n sp then
     let del := filter (fun r => (a_acct r =? a) && (a_name r =? n) &&
-                                match ov with Some v => a_val r =? v | None => true end)
+                                match ov with Some v => a_val r =? v | None => true end &&
+                                (* prefix scan by GetNameKeyBytes(raw); attr.Name == raw *)
+                                (negb (sp_inner sp) && (sp =? 0)))
                       (s_recs s) in
     match del with
     | [] => None
@@ -226,11 +254,11 @@ Inductive op :=
 | OBind (n o : Z)                               (* MsgBindName signed by the parent's owner *)
 | OModifyName (auth n o : Z)                    (* MsgModifyName: transfer name n to o *)
 | ODeleteName (c n : Z)                         (* MsgDeleteName signed by c *)
-| OAdd (c a n v ty : Z) (e : option Z)          (* MsgAddAttribute: caller, account, name, value, type, expiration *)
-| OUpdate (c a n ov oty nv nty : Z)             (* MsgUpdateAttribute *)
-| OUpdateExp (c a n v : Z) (e : option Z)       (* MsgUpdateAttributeExpiration *)
-| ODelete (c a n : Z)                           (* MsgDeleteAttribute *)
-| ODeleteDistinct (c a n v : Z)                 (* MsgDeleteDistinctAttribute *)
+| OAdd (c a n v ty : Z) (e : option Z) (sp : Z) (* MsgAddAttribute: caller, account, name, value, type, expiration, spelling *)
+| OUpdate (c a n ov oty nv nty sp : Z)          (* MsgUpdateAttribute *)
+| OUpdateExp (c a n v : Z) (e : option Z) (sp : Z) (* MsgUpdateAttributeExpiration *)
+| ODelete (c a n sp : Z)                        (* MsgDeleteAttribute *)
+| ODeleteDistinct (c a n v sp : Z)              (* MsgDeleteDistinctAttribute *)
 | OPurge (c n : Z)                              (* keeper.PurgeAttribute called directly *)
 | OBlock (dt : Z).                              (* block time += dt; BeginBlocker *)
 
@@ -251,12 +279,12 @@ Definition exec (s : state) (o : op) : option state :=
       if resolves s n c
       then purge_attribute (set_owner s (upd_owner (s_owner s) n None)) c n
       else None
-  | OAdd c a n v ty e =>
+  | OAdd c a n v ty e _ =>
       set_attribute s c {| a_acct := a; a_name := n; a_val := v; a_type := ty; a_exp := e |}
-  | OUpdate c a n ov oty nv nty => update_attribute s c a n ov oty nv nty
-  | OUpdateExp c a n v e => update_expiration s c a n v e
-  | ODelete c a n => delete_attribute s c a n None
-  | ODeleteDistinct c a n v => delete_attribute s c a n (Some v)
+  | OUpdate c a n ov oty nv nty sp => update_attribute s c a n ov oty nv nty sp
+  | OUpdateExp c a n v e _ => update_expiration s c a n v e
+  | ODelete c a n sp => delete_attribute s c a n None sp
+  | ODeleteDistinct c a n v sp => delete_attribute s c a n (Some v) sp
   | OPurge c n => purge_attribute s c n
   | OBlock dt => if dt <? 0 then None else Some (sweep (set_now s (s_now s + dt)))
   end.
